@@ -234,6 +234,12 @@ class Executor:
                 raise Unsupported('break/continue outside loop')
             if depth == 0:
                 s1.final_loc = s1.loc
+            else:
+                # ghost locals (g_*) belong to the whole activation: they survive the return of the callee
+                carried = {k_: v_ for k_, v_ in s1.loc.items() if k_.startswith('g_')}
+                if carried:
+                    saved = dict(saved)
+                    saved.update(carried)
             s1.loc = saved
             yield kind, pay, s1
 
